@@ -3,13 +3,20 @@
 
 #define VG_NMAX 65536
 /* ghost: vg_g[j] = CRC state after the first j bytes of the arena vg_buf */
-uint16_t vg_g[VG_NMAX + 1];
+/* two regions: [0, VG_NMAX] and [VG_NMAX+1, 2*VG_NMAX+1]; vg_go selects the region a call's contract speaks about */
+uint16_t vg_g[2 * (VG_NMAX + 1)];
+size_t vg_go;
+/* ghost: the byte arena of the split lemma */
+uint8_t vg_b[VG_NMAX];
 
 /* One step of the checksum in table form (contract vocabulary; identified with the
    bitwise definition REF by group crc16.tbl_eq_ref). */
 #define TBL_STEP(c, b) \
   ((uint16_t)(((((uint16_t)(c)) >> 8) ^ crc16_table[(((uint16_t)(c)) ^ ((uint8_t)(b))) & 0xff]) & 0xffff))
 
+#ifndef VG_GO
+#define VG_GO 0
+#endif
 #include "lib/crc16.c"
 
 /* CRC-16/ARC, bit by bit, from the property statement: reflected polynomial 0xA001,
@@ -63,8 +70,94 @@ void h_crc_buf(void)
 	uint16_t *crc;
 	uint8_t *buf;
 	size_t n;
+	__CPROVER_havoc_object(vg_g);
+	vg_go = VG_GO;                 /* group crc16.buf: region 0; group crc16.buf@1: region VG_NMAX+1 */
 	lha_crc16_buf(crc, buf, n);
 	VG_CANARY("crc_buf end");
+}
+
+/* L3 (unbounded): feeding vg_b[0..n) as [0,k) then [k,n) ends in the same state as one call on the whole.
+   G1 = region 0 is the state sequence of the whole buffer from c; G3 = region 1 is the state sequence of the second
+   piece from G1[k] (both exist for every buffer: they are defined by the recurrence, so assuming them loses no
+   input).  The three calls are replaced by the contract proved in crc16.buf / crc16.buf@1 (preconditions checked at
+   the calls).  That the second piece's sequence is the whole sequence shifted by k -- the step the SMT back ends
+   cannot re-index on their own -- is proved by induction, written as a ghost loop with an invariant. */
+#define G1(i) vg_g[(i)]
+#define G3(i) vg_g[VG_NMAX + 1 + (i)]
+/* The checksum variable may live INSIDE the buffer being summed (a record that carries its own CRC field): the value
+   left in *crc must still be the fold over the bytes that were passed in.  An inductive (loop-contract) version of this
+   group was tried: z3 answers unknown and cvc5 does not finish in 160 s because the field is read through a
+   type-punned pointer into the byte arena; only the bounded form below is kept. */
+size_t vg_ao, vg_Y;
+/* bounded, plain route (real code unwound, independent of the loop anchors): same statement for buffers of <= 6 bytes
+   against the REF fold of the ORIGINAL bytes. */
+uint8_t vg_in_ab[6];
+size_t vg_in_an, vg_in_ao;
+void h_crc_alias_bounded(void)
+{
+	uint16_t r;
+	size_t k;
+	for (k = 0; k < 6; k++) vg_in_ab[k] = nondet_uchar();
+	vg_in_an = nondet_size_t(); vg_in_ao = nondet_size_t();
+	__CPROVER_assume(vg_in_an <= 6 && vg_in_ao <= vg_in_an && vg_in_an - vg_in_ao >= 2);
+	r = (uint16_t) (vg_in_ab[vg_in_ao] | (vg_in_ab[vg_in_ao + 1] << 8));   /* little-endian host, as the library assumes nothing else here */
+	for (k = 0; k < 6; k++) if (k < vg_in_an) r = REF(r, vg_in_ab[k]);
+	lha_crc16_buf((uint16_t *) (vg_in_ab + vg_in_ao), vg_in_ab, vg_in_an);
+	__CPROVER_assert(*(uint16_t *) (vg_in_ab + vg_in_ao) == r, "C17 aliased (bounded n<=6): crc field inside the buffer holds the REF fold of the original bytes");
+	VG_CANARY("crc_alias_bounded end");
+}
+
+/* L3a: shift lemma, by induction (ghost loop with invariant; quantifier-free: the loop body assumes exactly the two
+   instances of the hypotheses that the step needs).
+   Hypotheses (H1) for all i < n:   G1(i+1) == TBL_STEP(G1(i), vg_b[i]);
+              (H3) G3(0) == G1(k), for all i < n-k: G3(i+1) == TBL_STEP(G3(i), vg_b[k+i]).
+   Conclusion: G3(n-k) == G1(n). */
+void h_crc_shift_lemma(void)
+{
+	size_t n, k, j;
+	__CPROVER_havoc_object(vg_b);
+	__CPROVER_havoc_object(vg_g);
+	n = nondet_size_t(); k = nondet_size_t();
+	__CPROVER_assume(n <= VG_NMAX && k <= n);
+	__CPROVER_assume(G3(0) == G1(k));
+	for (j = 0; j < n - k; j++)
+	__CPROVER_assigns(j)
+	__CPROVER_loop_invariant(j <= n - k)
+	__CPROVER_loop_invariant(G3(j) == G1(k + j))
+	__CPROVER_decreases(n - k - j)
+	{
+		__CPROVER_assume(G1(k + j + 1) == TBL_STEP(G1(k + j), vg_b[k + j]));   /* instance i = k+j of H1 */
+		__CPROVER_assume(G3(j + 1) == TBL_STEP(G3(j), vg_b[k + j]));           /* instance i = j of H3 */
+	}
+	__CPROVER_assert(G3(n - k) == G1(n), "C17 shift lemma: the state sequence of the second piece is the whole sequence shifted by k");
+	VG_CANARY("crc_shift_lemma end");
+}
+
+/* L3b: the three calls, each replaced by the contract proved in crc16.buf / crc16.buf@1 (preconditions checked at
+   the calls; the quantified hypotheses are written in the clause's own form). */
+void h_crc_split_lemma(void)
+{
+	uint16_t c, c1, c2;
+	size_t n, k;
+	__CPROVER_havoc_object(vg_b);
+	__CPROVER_havoc_object(vg_g);
+	c = nondet_ushort(); n = nondet_size_t(); k = nondet_size_t();
+	__CPROVER_assume(n <= VG_NMAX && k <= n);
+	__CPROVER_assume(G1(0) == c);
+	__CPROVER_assume(G3(0) == G1(k));
+	__CPROVER_assume(__CPROVER_forall { size_t vk; (vk < n) ==>
+	    vg_g[0 + vk + 1] == TBL_STEP(vg_g[0 + vk], vg_b[vk]) });
+	__CPROVER_assume(__CPROVER_forall { size_t vk; (vk < n - k) ==>
+	    vg_g[(VG_NMAX + 1) + vk + 1] == TBL_STEP(vg_g[(VG_NMAX + 1) + vk], (vg_b + k)[vk]) });
+	/* ASSUME: conclusion of the shift lemma, proved under these same hypotheses by group crc16.shift_lemma */
+	__CPROVER_assume(G3(n - k) == G1(n));
+	c1 = c; c2 = c;
+	vg_go = 0;           lha_crc16_buf(&c1, vg_b, n);
+	vg_go = 0;           lha_crc16_buf(&c2, vg_b, k);
+	vg_go = VG_NMAX + 1; lha_crc16_buf(&c2, vg_b + k, n - k);
+	__CPROVER_assert(c1 == c2, "C17 split lemma: piecewise equals whole, any length, any split point");
+	__CPROVER_assert(c1 == G1(n), "C17 split lemma: both equal the fold over the whole buffer");
+	VG_CANARY("crc_split_lemma end");
 }
 
 /* L3 (bounded, SAT, real code unwound): a buffer of n <= 8 bytes fed as two pieces, any split point,
